@@ -2,6 +2,7 @@ CONSTANTS
   MaxTasks = 5
   MaxSend = 2
   WithOnConnect = TRUE
+  WithOnDisconnect = TRUE
   HandlerCloses = TRUE
   WithCloser = TRUE
   Dev_NoConnRecheck = FALSE
